@@ -680,7 +680,9 @@ def concurrent_ends(ctx, share):
             continue
         if time.time() - t0 > share * 0.7 or ctx.too_many_violations():
             break
-        c20.explore_dfs(ctx, causes, None, base, limit)
+        # (at most one pre-emption, then at most two: the atomicity windows)
+        c20.explore_dfs(ctx, causes, 1, base, limit * 5)
+        c20.explore_dfs(ctx, causes, 2, base, limit)
     k = ctx.shard * 10 ** 6
     triples = [list(t) for t in itertools.combinations(c20.CAUSES, 3)]
     while time.time() - t0 < share and not ctx.too_many_violations():
